@@ -2,7 +2,7 @@
    Termination: every model function is a structural recursion on the input list (accepted by the kernel's guard
    checker), so the models terminate on every input; what is proved below is the absence of leaked Python exceptions. *)
 From Coq Require Import ZArith List Bool.
-Require Import PyIR.Base.Result PyIR.Engine.Match PyIR.Engine.Parse PyIR.Engine.NoCrash PyIR.Engine.ParseM PyIR.Engine.ParseMProps PyIR.Engine.ParseMD PyIR.Engine.ParseMDProps PyIR.Engine.ParseHT PyIR.Engine.ParseHTProps PyIR.Engine.ParseB PyIR.Proto.Descriptor
+Require Import PyIR.Base.Result PyIR.Engine.Match PyIR.Engine.Parse PyIR.Engine.NoCrash PyIR.Engine.ParseM PyIR.Engine.ParseMProps PyIR.Engine.ParseMD PyIR.Engine.ParseMDProps PyIR.Engine.ParseHT PyIR.Engine.ParseHTProps PyIR.Engine.ParseB PyIR.Engine.ParseMT PyIR.Engine.ParseMTProps PyIR.Proto.Descriptor
                PyIR.Ctl.Dispatcher PyIR.Ctl.Instance PyIR.Ctl.NoCrash.
 Import ListNotations.
 Open Scope Z_scope.
@@ -31,6 +31,13 @@ Proof. exact parseHT_no_pyerr. Qed.
 Theorem C08_engine_never_leaks_serial_table : forall tol li lo mark space code, mark <> 0 -> space <> 0 ->
   is_pyerr (parseB tol li lo mark space code) = false.
 Proof. exact parseB_no_pyerr. Qed.
+
+(* ... and the Manchester loop with tuple / integer middle timings (MCE, RC6632, XBox360, RC5x), including the clause that drops a
+   burst without consuming it *)
+Theorem C08_engine_never_leaks_manchester_middle : forall tol li lo mids t code, is_pyerr (parseMT tol li lo mids t code) = false.
+Proof. exact parseMT_no_pyerr. Qed.
+Theorem C08_manchester_middle_model_extends_plain : forall tol li lo t code, parseMT tol li lo [] t code = parseM tol li lo t code.
+Proof. exact parseMT_nil. Qed.
 
 (* the model with middle tuples extends the model without: with none declared it is parseH, equation for equation *)
 Theorem C08_tuple_middle_model_extends_plain : forall tol li lo t code, parseHT tol li lo [] t code = parseH tol li lo t code.
@@ -70,6 +77,8 @@ Print Assumptions C08_engine_never_leaks_any_pair_table.
 Print Assumptions C08_engine_never_leaks_positional_middle.
 Print Assumptions C08_engine_never_leaks_tuple_middle.
 Print Assumptions C08_engine_never_leaks_serial_table.
+Print Assumptions C08_engine_never_leaks_manchester_middle.
+Print Assumptions C08_manchester_middle_model_extends_plain.
 Print Assumptions C08_tuple_middle_model_extends_plain.
 Print Assumptions C08_decoder_never_leaks.
 Print Assumptions C08_dispatcher_never_raises.
